@@ -47,6 +47,8 @@ def verify(sd):
     finally:
         sh(["git", "-C", REPO, "worktree", "remove", "--force", wt])
     print(json.dumps(res, indent=1))
+    meta["confirmed"] = res
+    json.dump(meta, open(os.path.join(sd, "meta.json"), "w"), indent=1)
     return 0 if all(v for k, v in res.items() if isinstance(v, bool)) else 1
 
 def run(sd, props):
